@@ -75,6 +75,7 @@ func (this *zzCanaryQueue) Get() interface{} {
 }
 
 var reQueueSize = regexp.MustCompile(`queue(\d?)\.Size\(\)`)
+var reParenQueue = regexp.MustCompile(`\((queue\d?)\)`)
 
 // queueCtx builds the paths configuration for a method of a queue type.
 type queueCtx struct {
@@ -276,7 +277,12 @@ func (q *queueCtx) norm(e ast.Expr) string {
 			s = strings.ReplaceAll(s, k, repl[k])
 		}
 	}
+	// a field handed to a helper by address and used there through the pointer is the field
+	s = strings.ReplaceAll(s, "*&"+q.recv+".", q.recv+".")
+	s = strings.ReplaceAll(s, "(&"+q.recv+".", "("+q.recv+".")
+	s = strings.ReplaceAll(s, "&"+q.recv+".", q.recv+".")
 	s = strings.ReplaceAll(s, q.recv+".", "")
+	s = reParenQueue.ReplaceAllString(s, "$1")
 	s = reQueueSize.ReplaceAllString(s, "size$1")
 	s = strings.ReplaceAll(s, " ", "")
 	s = strings.ReplaceAll(s, "(", "")
@@ -323,6 +329,15 @@ func (q *queueCtx) config() paths.Config {
 								out = append(out, paths.Event{Kind: "SETCAP", Arg: q.norm(l), Pos: as.Pos()})
 							}
 						}
+					}
+				}
+			}
+			// ok := helper(args) with the helper followed: `return ok` hands back what the helper returned
+			// on this path
+			if as, ok := n.(*ast.AssignStmt); ok && len(as.Lhs) == 1 && len(as.Rhs) == 1 {
+				if id, ok := as.Lhs[0].(*ast.Ident); ok {
+					if call, ok := ast.Unparen(as.Rhs[0]).(*ast.CallExpr); ok && in.Inlinable(call) {
+						out = append(out, paths.Event{Kind: "RESCALL", Arg: id.Name, Pos: as.Pos()})
 					}
 				}
 			}
@@ -1115,6 +1130,28 @@ func (q *queueCtx) resolveRetvals(ps []paths.Path) {
 			}
 			if b, ok := eval(ex); ok {
 				e.Arg = fmt.Sprint(b)
+			}
+		}
+		// `return ok` with ok := helper(...): the value the followed helper returned on this path
+		for i := range pa {
+			e := &pa[i]
+			if e.Kind != "RETVAL" || e.Arg == "" {
+				continue
+			}
+			for j := i - 1; j >= 0; j-- {
+				if pa[j].Kind == "RESCALL" && pa[j].Arg == e.Arg {
+					// the helper's own last RETVAL before its LEAVE
+					for k := j - 1; k >= 0; k-- {
+						if pa[k].Kind == "RETVAL" {
+							e.Arg = pa[k].Arg
+							break
+						}
+						if pa[k].Kind == "ENTER" {
+							break
+						}
+					}
+					break
+				}
 			}
 		}
 		// `return result` of a named result: the value it was last given on this path, else its zero value
